@@ -296,5 +296,43 @@ theorem isNext_token (s ty : Str) (sep : Char) (tl : Str) (rev : Str)
   rw [hs, ht]
   exact isNext_mismatch p y s' x tl' hne rev
 
+/-! ### the same with "something follows" stated as `rem ≠ []` -/
+
+theorem skip_one (rev : Str) (a : Char) (rem : Str) (h : rem ≠ []) :
+    skip 1 (atRem rev (a :: rem)) = atRem (a :: rev) rem := by
+  cases rem with
+  | nil => exact absurd rfl h
+  | cons x tl => rfl
+
+theorem skip_two (rev : Str) (a b : Char) (rem : Str) (h : rem ≠ []) :
+    skip 2 (atRem rev (a :: b :: rem)) = atRem (b :: a :: rev) rem := by
+  cases rem with
+  | nil => exact absurd rfl h
+  | cons x tl => rfl
+
+theorem isNext_true' (s : Str) (rev : Str) (rem : Str) (h : rem ≠ []) :
+    isNext s (atRem rev (s ++ rem)) = (true, atRem (s.reverse ++ rev) rem) := by
+  cases rem with
+  | nil => exact absurd rfl h
+  | cons x tl => exact isNext_true s rev x tl
+
+theorem skipSpaces_head (rev : Str) (rem : Str) (x : Char) (h : rem.head? = some x) (hx : isSpace x = false) :
+    skipSpaces (atRem rev rem) = atRem rev rem := by
+  cases rem with
+  | nil => simp at h
+  | cons y tl =>
+    simp only [List.head?_cons, Option.some.injEq] at h
+    subst h
+    exact skipSpaces_id rev y tl hx
+
+theorem isNext_head_ne' (e : Char) (es : Str) (rem : Str) (x : Char) (h : rem.head? = some x) (hne : x ≠ e)
+    (rev : Str) : isNext (e :: es) (atRem rev rem) = (false, atRem rev rem) := by
+  cases rem with
+  | nil => simp at h
+  | cons y tl =>
+    simp only [List.head?_cons, Option.some.injEq] at h
+    subst h
+    exact isNext_head_ne e es y tl hne rev
+
 end Cursor
 end Mtv.Tlgen
